@@ -129,6 +129,27 @@ SUMMARY.update({
  "C08-f": ("C08", "consensus/src/mempool.rs MempoolDriver: cache of proposals already looked up, filled at look-up time; a second delivery of a parked proposal counts as available", "a proposal with a missing batch delivered twice before the batch arrives"),
 })
 
+SUMMARY.update({
+ "C14-g": ("C14", "reliable_sender.rs keep_alive: the is_closed() filter moved from the transmit loop to the arm that takes new messages; re-buffered and back-off entries are no longer checked", "a cancellation combined with a connection fault (break before the ACK, or cancel during back-off with no further message)"),
+})
+
+SUMMARY.update({
+ "C13-g": ("C13", "mempool/src/synchronizer.rs Cleanup: gc_round = round.saturating_sub(gc_depth) without the `round < gc_depth` guard: while the round is below gc_depth every Cleanup drops the requests registered before the first Cleanup", "a batch missed in the first rounds of a run, a silent first target, and a commit before the batch arrives"),
+})
+
+SUMMARY.update({
+ "C06-f": ("C06", "core.rs local_timeout_round: the node's own timeout is fed to handle_timeout only if last_voted_round < round (i.e. not after it voted in that round)", "a round whose block was voted but whose QC never forms (next leader crashed) with exactly a quorum of live nodes: no TC ever forms"),
+ "C10-g": ("C10", "core.rs handle_proposal: process_qc(block.qc) skipped when the block carries a TC (only advance_round(tc.round)): high_qc is not updated before voting", "a node that learns a QC only through the post-view-change block, votes for it and then times out"),
+})
+
+SUMMARY.update({
+ "C07-g": ("C07", "consensus synchronizer retry arm: only the oldest outstanding request is retried", "a gap of >= 2 missed blocks and a silent first target for a deeper ancestor: the oldest entry is a block already held (parked), the missing one is never retried"),
+})
+
+SUMMARY.update({
+ "C12-f": ("C12", "mempool config.rs quorum_threshold = 2f+1 with f = (N-1)/3 (mempool only)", "total stake not of the form 3f+1 and slow or silent peers"),
+})
+
 def confirmed(d):
     out = {}
     for tag in ("with", "without"):
